@@ -5,5 +5,10 @@ MUTANTS = [
     M('C05', 'bit vector xor wrong stride', B + 'logics.fj', "        rep(n, i) .xor dst+dw*i, src+dw*i", "        rep(n, i) .xor dst+dw*i, src+w*i", 'C05.EXTENT'),
     M('C05', 'bit inc calls a missing overload', B + 'math.fj', "        rep(n, i) .inc.inc1_with_carry0_jump x+i*dw, carry, end", "        rep(n, i) .inc.inc1_with_carry0_jump x+i*dw, carry", 'C05.CLOSURE'),
     M('C05', 'bit add touches cell -1', B + 'math.fj', "        rep(n, i) .add1 dst+i*dw, src+i*dw, carry\n", "        rep(n, i) .add1 dst+(i-1)*dw, src+i*dw, carry\n", 'C05.EXTENT', count=2),
+    M('C05', 'bit.add no longer clears its private carry (seed C05_1)', B + 'math.fj', "        .zero carry\n        rep(n, i) .add1 dst+i*dw, src+i*dw, carry\n", "        rep(n, i) .add1 dst+i*dw, src+i*dw, carry\n", 'C05.SCRATCH'),
+    M('C05', 'bit.sub no longer sets its private carry', B + 'math.fj', "        .not n, src\n        .one carry\n", "        .not n, src\n", 'C05.SCRATCH'),
+    M('C05', 'bit.inc toggles the carry instead of setting it', B + 'math.fj', "        .one carry\n        rep(n, i) .inc.inc1_with_carry0_jump", "        .not carry\n        rep(n, i) .inc.inc1_with_carry0_jump", 'C05.SCRATCH'),
+    M('C05', 'bit.mul clears one cell less of its accumulator', B + 'mul.fj', "        .zero n, res\n", "        .zero n-1, res\n", 'C05.SCRATCH', count=2),
+    M('C05', 'EQ bit.add clears the carry through the vector form', B + 'math.fj', "        .zero carry\n        rep(n, i) .add1 dst+i*dw, src+i*dw, carry\n", "        .zero 1, carry\n        rep(n, i) .add1 dst+i*dw, src+i*dw, carry\n", None),
     M('C05', 'EQ swap stride spelled dw*i', B + 'memory.fj', "        rep(n, i) .swap a+i*dw, b+i*dw", "        rep(n, i) .swap a+dw*i, b+i*dw", None),
 ]
